@@ -1,5 +1,6 @@
 SPECIFICATION TraceSpec
 CONSTANTS
+  Full = TRUE
   BugH13 = TRUE
 INVARIANTS RecProp RecCode
 CHECK_DEADLOCK FALSE
